@@ -256,7 +256,10 @@ def required_cells(tier):
             'module:neighbours-ok:google', 'module:neighbours-ok:freeform', 'origin:fuzz', 'origin:damaged',
             'module:raw-carriage-return'] + \
         ['broken-by-construction:' + k for k in BROKEN_FRAGMENTS] + ['broken-shape:single-statement',
-                                                                      'broken-shape:statement-with-want']
+                                                                      'broken-shape:statement-with-want'] + \
+        ['broken-syntax:' + k for k in BROKEN_SYNTAX] + ['broken-syntax-layout:google-block',
+                                                         'broken-syntax-layout:google-block-after-good',
+                                                         'broken-syntax-layout:freeform']
 
 
 def run_case(ctx, idx, with_module):
@@ -332,10 +335,60 @@ def check_broken_by_construction(ctx):
                 ctx.cell('broken-shape:' + sname)
 
 
+BROKEN_SYNTAX = {
+    # doctest syntax that cannot be completed, written with and without the blank behind the prompt
+    'unclosed-bracket': ['>>> x = (', '>>> y = 1'],
+    'bare-prompt-unclosed-bracket': ['>>>', '... x = ('],
+    'bare-prompt-dangling-else': ['>>>', '... else:', '...     pass'],
+    'bare-prompt-unclosed-string': ['>>>', "... s = '''abc"],
+    'bare-prompts-only-unclosed': ['>>>', '>>>', '... f(1,'],
+}
+
+
+def check_broken_syntax(ctx):
+    import io
+    import contextlib
+    from xdoctest import core
+    for name, lines in sorted(BROKEN_SYNTAX.items()):
+        for layout in ('google-block', 'google-block-after-good', 'freeform'):
+            if layout == 'freeform':
+                doc = 'Summary.\n\n' + '\n'.join(lines) + '\n'
+            elif layout == 'google-block':
+                doc = 'Summary.\n\nExample:\n' + '\n'.join('    ' + ln for ln in lines) + '\n'
+            else:
+                doc = ('Summary.\n\nExample:\n    >>> good = 1\n\nExample:\n' + '\n'.join('    ' + ln for ln in lines) + '\n')
+            for style in ('freeform', 'google', 'auto'):
+                if style == 'google' and layout == 'freeform':
+                    continue
+                ctx.evaluation()
+                ctx.nontrivial(('broken-syntax', doc, style))
+                case = {'kind': 'broken-syntax', 'name': name, 'layout': layout, 'style': style, 'doc': doc}
+                try:
+                    with warnings.catch_warnings(record=True) as wl, contextlib.redirect_stdout(io.StringIO()):
+                        warnings.simplefilter('always')
+                        exs = list(core.parse_docstr_examples(doc, style=style, callname='broken'))
+                except Exception as ex:
+                    ctx.violation('escape-extract', 'parse_docstr_examples(style=%s) raised %r on a docstring with broken doctest '
+                                  'syntax (%s, %s)\n--- docstring ---\n%s' % (style, ex, name, layout, doc), case)
+                    continue
+                unparsed = [e for e in exs if getattr(e, '_parts', None) is None]
+                bad_block = [e for e in exs if 'good = 1' not in e.docsrc]
+                if not wl or unparsed or bad_block:
+                    ctx.violation('broken-accepted', 'a docstring with broken doctest syntax (%s, layout %s) yields %d example(s) '
+                                  '(%d for the broken block, %d of them not parsed) and %d warning(s) under style=%s; expected a '
+                                  'warning and no example for it\n--- docstring ---\n%s' % (
+                                      name, layout, len(exs), len(bad_block), len(unparsed), len(wl), style, doc), case)
+                    continue
+                ctx.cell('broken-syntax:' + name)
+                ctx.cell('broken-syntax-layout:' + layout)
+
+
 def run_shard(ctx):
     warnings.simplefilter('ignore')
     if ctx.shard == 0:
         check_broken_by_construction(ctx)
+    if ctx.shard == 1 % ctx.nshards:
+        check_broken_syntax(ctx)
         warnings.simplefilter('ignore')
     n = ctx.pick(20000, 400000)
     nmod = ctx.pick(1500, 20000)
@@ -347,6 +400,9 @@ def replay(case, ctx):
     warnings.simplefilter('ignore')
     if case.get('kind') == 'broken-by-construction':
         check_broken_by_construction(ctx)
+        return
+    if case.get('kind') == 'broken-syntax':
+        check_broken_syntax(ctx)
         return
     c = dict(case)
     c.pop('src', None)
